@@ -153,6 +153,19 @@ impl SrtpSession {
         })
     }
 
+    /// Verification hook (C10): (profile, tx key, tx salt, rx key, rx salt).
+    #[cfg(rustrtc_verif)]
+    #[allow(clippy::type_complexity)]
+    pub fn verif_keys(&self) -> (String, Vec<u8>, Vec<u8>, Vec<u8>, Vec<u8>) {
+        (
+            format!("{:?}", self.profile),
+            self.tx_keying.master_key.clone(),
+            self.tx_keying.master_salt.clone(),
+            self.rx_keying.master_key.clone(),
+            self.rx_keying.master_salt.clone(),
+        )
+    }
+
     pub fn protected_rtp_len(&self, packet: &RtpPacket) -> usize {
         packet.header.encoded_len()
             + packet.payload.len()
